@@ -66,7 +66,9 @@ func runStateCache(args []string) (map[string]any, error) {
 	}
 	for i := 0; i < *nlong; i++ {
 		tid++
-		if i%3 == 0 {
+		if i == 1 {
+			exec.RunSCHistory(w, st, tid, exec.GenSCDeep(r))
+		} else if i%3 == 0 {
 			exec.RunSCHistory(w, st, tid, exec.GenSCCapacity(r))
 		} else {
 			exec.RunSCHistory(w, st, tid, exec.GenSCHistory(r, true))
